@@ -26,8 +26,8 @@ CASES = [
       "                if self.current_dtype not in _ptypes:\n                    # check the current_type attribute\n                    raise Exception(\"Wrong pathways type: \"+self.current_dtype)\n", ""),
     m("finer-than-storage additions accepted", "C19-C", "            if res1 <= res2:\n            \n                pass", "            if True:\n            \n                pass"),
     m("add overwrites instead of accumulating", "C19-C",
-      "                    if odata is None:    \n                        self.d__data = data\n                    else:\n                        self.d__data = odata + data",
-      "                    if odata is None:    \n                        self.d__data = data\n                    else:\n                        self.d__data = data"),
+      "                    if odata is None:    \n                        self.d__data = numpy.array(data)\n                    else:\n                        self.d__data = odata + data",
+      "                    if odata is None:    \n                        self.d__data = numpy.array(data)\n                    else:\n                        self.d__data = numpy.array(data)"),
     m("conversion path goes up", "C19-D", "3:{2:[3,2], 1:[3,1], 0:[3,2,0]},", "3:{2:[3,2], 1:[3,1], 0:[3,4,0]},"),
     m("processes convertible to signals", "C19-D", "                 2:{0:[2,0]},", "                 2:{0:[2,0], 1:[2,1]},"),
     m("conversion mutates the old storage in place", "C19-D",
@@ -59,4 +59,13 @@ CASES += [
 CASES += [
     m("process view accumulates into the first stored type", "C19-F",
       "def _types_to_processes(obj, process):", "def _types_to_processes_unused(obj, process):\n    pass\n\n\ndef _types_to_processes(obj, process):\n    data = None\n    for dtype in _processes[process]:\n        try:\n            ddata = obj._d__data[dtype]\n        except (KeyError, AttributeError):\n            ddata = None\n        if ddata is not None:\n            if data is None:\n                data = ddata\n            else:\n                data += ddata\n    return data\n\n\ndef _types_to_processes_old(obj, process):"),
+]
+
+CASES += [
+    m("first addition stores the caller's array (the repaired defect)", "C19-G",
+      "                    self.d__data = numpy.array(data)", "                    self.d__data = data", 5),
+    m("spectrum built on a view of the stored array (the repaired defect)", "C19-G",
+      "        twod.set_data(numpy.array(self.d__data[:,:]))", "        twod.set_data(self.d__data[:,:])"),
+    t("first addition stores a copy made with the copy method",
+      "                        self.d__data = numpy.array(data)", "                        self.d__data = data.copy()"),
 ]
